@@ -1037,7 +1037,20 @@ type EntryResult struct {
 	Errors     []string
 }
 
+// runEntry explores the entry; if the exploration discovers a channel that is
+// the target of a non-blocking send (see arrivalSites) it is restarted, because
+// paths explored before the discovery used the coarser receive transitions.
 func runEntry(prog *Program, entry *ssa.Function, cfg Config, fixed map[string]uint64, prefix []Dec) *EntryResult {
+	for round := 0; ; round++ {
+		before := atomic.LoadInt64(&arrivalNew)
+		er := runEntryOnce(prog, entry, cfg, fixed, prefix, before)
+		if fixed != nil || round >= 4 || atomic.LoadInt64(&arrivalNew) == before {
+			return er
+		}
+	}
+}
+
+func runEntryOnce(prog *Program, entry *ssa.Function, cfg Config, fixed map[string]uint64, prefix []Dec, arrivalsBefore int64) *EntryResult {
 	t0 := time.Now()
 	work := NewWorkList()
 	work.Push(prefix)
@@ -1086,6 +1099,13 @@ func runEntry(prog *Program, entry *ssa.Function, cfg Config, fixed map[string]u
 					mu.Lock()
 					er.Inconcl = append(er.Inconcl, "budget: path bound reached")
 					mu.Unlock()
+					work.Done()
+					work.Close()
+					return
+				}
+				if fixed == nil && atomic.LoadInt64(&arrivalNew) != arrivalsBefore {
+					// a new arrival-sensitive channel was discovered: this
+					// exploration is abandoned and restarted (runEntry)
 					work.Done()
 					work.Close()
 					return
